@@ -76,6 +76,8 @@ fn main() {
         (Tier::Quick, true) => {
             plans.push((vec![Kind::Gate], true, true));
             plans.push((vec![Kind::GateDrop], true, false));
+            // a response too large for the socket buffers: shutdown may arrive while it is being written
+            plans.push((vec![Kind::Big], true, false));
             plans.push((vec![Kind::Gate, Kind::Gate], false, false));
         }
         (Tier::Thorough, false) => {
@@ -89,6 +91,8 @@ fn main() {
             plans.push((vec![Kind::Gate, Kind::Big], false, false));
         }
         (Tier::Thorough, true) => {
+            plans.push((vec![Kind::Big], true, false));
+            plans.push((vec![Kind::Gate, Kind::Big], false, false));
             plans.push((vec![Kind::Gate], true, true));
             plans.push((vec![Kind::GateDrop], true, true));
             plans.push((vec![Kind::GateDrop, Kind::Gate], false, false));
